@@ -1,5 +1,5 @@
 Require Extraction.
 Require Import ExtrOcamlBasic.
-From SCMO Require Import Lib.Val Model.C14.
-Definition run := run_C14.
+From SCMO Require Import Lib.Val Model.C14 Model.C14x.
+Definition run := run_C14x.
 Extraction "c14_model.ml" run.
